@@ -21,6 +21,15 @@ method + path template only; a route that fits no class (or has no request in th
     authorisation (business 4xx with a reason are fine);
   * listings / reads: every batch, billing project or spending row shown must be one the caller may read.
 
+Search queries: every listing route that takes q (batches v1 / v2 / UI, jobs of a batch v1 / v2, jobs of a job group v1 / v2,
+the UI batch page) is sent the query tables q_jobs_v1/v2, q_batches_v1/v2: no q, every state keyword (single- and multi-state:
+live, bad, done), every negation, attribute terms (k=v, has:k, job_id=), every operator of the v2 grammar per field, quoted /
+partial words, malformed terms, all ordered pairs over a 9-term alphabet and a few triples; plus recursive / paging parameters.
+Batch 7 (u2, bp2, never a target) holds one job in each of the 8 job states and every batch / job carries attributes, so a
+listing that escapes its restriction shows rows.  Every returned row must belong to a batch the caller may read AND to the
+batch (and job group, directly or as descendant when recursive) named in the URL.  Quick tier: the search queries are sent
+by u1 / u2 on three readable batches each and by the non-member on one; thorough tier: by every caller on every target.
+
 History phase (both tiers): every sequence  [request r1 by caller c on batch B] ; [operation] ; [request r2 by c on B]
 and  [operation] ; [r2]  on ONE service process, for the (operation, c, B) combinations of HISTORY_COMBOS: remove / add a
 user from / to a billing project, close / reopen a billing project, delete the batch (all through the real routes, as
@@ -75,7 +84,9 @@ CALLERS = {
     'developer-browser': ('tok-dev', 'dev', 'cookie'),
 }
 TOKENS = {tok: USERDATA[u] for tok, u, _ in CALLERS.values() if u}
-Q_CALLERS_QUICK = ('u1', 'u2', 'nonmember')
+# quick tier: search queries are sent by the two members on three batches each can read and by the non-member on one batch
+# (the thorough tier sends every search query as every caller on every target)
+Q_TARGETS_QUICK = {'u1': (1, 4, 6, None), 'u2': (1, 2, 4, None), 'nonmember': (1, None)}
 QUICK_CALLERS = ['anonymous', 'unknown-token', 'inactive', 'u1', 'u2', 'u2-browser', 'nonmember', 'developer', 'auth']
 CALLER_ORDER = list(CALLERS)
 API_TOKEN = '<token shown to this caller by GET /api/v1alpha/batches/{batch_id}>'
@@ -591,7 +602,7 @@ def request_variants(method, path, cls, target):
             v2 = 'v2alpha' in path or not path.startswith('/api/')
             for qs in (q_jobs_v2() if v2 else q_jobs_v1()):
                 add(f'q={qs!r}', query={'q': qs}, tag='q')
-                if path.endswith('/jobs') and any(t in qs for t in ('live', 'bad', 'done')):
+                if path.endswith('/jobs') and any(t in qs for t in ('live', 'bad', 'done')) and ' ' not in qs.replace(' = ', '=').replace(' != ', '!=') and '\n' not in qs:
                     add(f'recursive, q={qs!r}', query={'q': qs, 'recursive': 'true'}, tag='q')
             if path.endswith('/jobs'):
                 add('page after job 1', query={'last_job_id': '1'}, tag='q')
@@ -1109,8 +1120,8 @@ def all_cases(tier='quick'):
                 break
             for caller in callers:
                 for v in range(len(vs)):
-                    if vs[v][5] == 'q' and tier == 'quick' and caller not in Q_CALLERS_QUICK:
-                        continue   # (the thorough tier sends every search query as every caller)
+                    if vs[v][5] == 'q' and tier == 'quick' and target not in Q_TARGETS_QUICK.get(caller, ()):
+                        continue
                     cases.append((i, caller, target, v))
     return cases, unclassified, norequest
 
@@ -1257,7 +1268,10 @@ def check(tier, seed, procs):
         'exhaustive': True,
         'bounds': f'{len(table)} routes x {len(callers_for(tier))} callers {callers_for(tier)} x targets (batches {list(BATCH_TARGETS)}: u1/bp, u2/bp2, '
                   f'u1/bp deleted, u2/bp, inactive-user/bp, u1/bp with update 1 staged but uncommitted, nonexistent; billing projects {list(BP_TARGETS)}) '
-                  'x 1-4 request variants per route; the thorough tier adds the browser-session flavour of every caller.  History phase: '
+                  'x 1-4 request variants per route + the search-query tables on the listing routes (v1 jobs '
+                  f'{len(q_jobs_v1())}, v2 jobs {len(q_jobs_v2())}, v1 batches {len(q_batches_v1())}, v2 batches {len(q_batches_v2())} queries; '
+                  f'{"callers/targets " + str(Q_TARGETS_QUICK) if tier == "quick" else "every caller and target"}); '
+                  'the thorough tier adds the browser-session flavour of every caller.  History phase: '
                   f'{len(HISTORY_COMBOS)} (operation, caller, batch) combinations x (no r1 | every batch-scoped request as r1) x '
                   f'({"r1 itself + 5 probe requests" if tier == "quick" else "every batch-scoped request"} as r2)',
         'routes_enumerated': [f'{m} {p} -> {c}' for _, m, p, _, c in table],
@@ -1272,6 +1286,9 @@ def check(tier, seed, procs):
         'verdicts_per_class': {c: _count(('violation' if r['viol'] else 'outside-refused' if not r['may'] else 'inside-ok')
                                          for r in rows if r['class'] == c) for c in sorted(by_class)},
         'replayed_token_cases_where_the_api_showed_the_token': sum(1 for r in rows if r.get('token_shown_by_api')),
+        'search_query_cases': sum(1 for r in rows if r['tag'] == 'q'),
+        'search_query_cases_by_answer': _count(r['status'] for r in rows if r['tag'] == 'q'),
+        'search_query_cases_that_listed_rows': sum(1 for r in rows if r['tag'] == 'q' and r.get('listed')),
     }
     vac = None
     if len(table) < 40 or served_insiders < 100 or changed_insiders < 20 or by_verdict.get('outside: refused, state unchanged', 0) < 500:
@@ -1309,6 +1326,8 @@ ASSUME = [
     'minisql resolves column names lazily: the broken `NOT deleted` in close_batch (no such column in job_groups) raises 1054 only when the '
     'preceding `user = %s` conjunct holds, MySQL would raise it for every caller; either way a non-owner is refused (404 here, 500 there)',
     'non-HTTP exceptions raised by a handler count as an error answer (aiohttp turns them into 500)',
+    'the job states of the bait batch 7 are written directly into jobs.state (one job per state incl. Creating / Pending); it is never a request '
+    'target, only something a leaking listing would show',
     'history phase: one World = one front-end process; module-level state is restored between histories from a snapshot taken after seeding '
     '(dict / list / set / deque containers, instance __dict__ of batch / gear / web_common / hailtop / sortedcontainers objects, lru caches, '
     'closure cells, function attributes, class attributes, the app mapping); prometheus metrics, asyncio / aiohttp objects are taken as benign',
